@@ -343,6 +343,8 @@ struct Socks
 		{
 			s.req_addr = s.bind_any ? 0 : v4(aP);
 			s.req_port = s.bind_port0 ? 0 : uint16_t(3000 + s.idx);
+			// one endpoint named by several BIND sessions, one after the other (see "bind_reuse" in generate())
+			if (plan.c("bind_reuse")) { s.req_addr = v4(aP); s.req_port = 3900; }
 		}
 		else
 		{
@@ -830,6 +832,8 @@ struct Socks
 			if (!second)
 			{
 				s.st = CS_REPLY2;
+				// a client that gives up before the expected peer shows up: it leaves (a close op), nobody ever dials
+				if (plan.c("bind_reuse") && s.early_close) { ctx.hit("bind_abandoned_before_peer"); return; }
 				// the expected peer now connects to the endpoint the proxy bound
 				tcp::endpoint const to(aP, r.port);
 				ctx.tr.rec("t_connect", {s.idx}, {now_ns(), r.port});
@@ -1434,6 +1438,31 @@ struct SocksEngine : Engine
 		static int64_t const lats[] = {0, 1000, 1000000, 50000000, 300000000};
 		p.cfg["lookup_lat"] = rng.pick(lats);
 
+		if (cls == 0 && rng.chance(0.06))
+		{
+			// a BIND whose client leaves before the expected peer connects, and later a BIND of the same endpoint by another
+			// client: the first one must not have left anything behind
+			p.cfg["bind_reuse"] = 1;
+			p.cfg["flags"] = 0;
+			for (int i = 0; i < 2; ++i)
+			{
+				Op o;
+				o.op = "conn";
+				o.a = int64_t(rng.below(2)) + 2 * 1; // version 5 or 4, BIND
+				o.b = 8;
+				o.c = rng.chance(0.5) ? 0 : (int64_t(rng.next() >> 2) | 1);
+				o.at = i == 0 ? 0 : 40000000000LL;
+				p.ops.push_back(o);
+			}
+			{
+				Op o; o.op = "close"; o.a = 0; o.b = 0; o.d = 1; o.at = 20000000000LL; p.ops.push_back(o);
+			}
+			for (int i = 0; i < 3; ++i)
+			{
+				Op o; o.op = rng.chance(0.5) ? "cw" : "tw"; o.a = 1; o.b = int64_t(rng.below(uint64_t(k_nsizes))); o.c = 0; p.ops.push_back(o);
+			}
+			return p;
+		}
 		int const nsess = int(rng.range(1, tier ? 6 : 4));
 		int nudp = 0;
 		for (int i = 0; i < nsess; ++i)
